@@ -97,7 +97,9 @@ def gen_inlines(c, depth=0, allow_link=True, allow_break=True, n=None, allow_htm
     items = []
     for i in range(n):
         k = t.below(100)
-        if plain or k < 42:
+        if c.refs and allow_link and not plain and t.chance(80):
+            it = gen_reflink(c, depth)
+        elif plain or k < 42:
             it = gen_word(c)
         elif k < 50 and depth < 2:
             it = N('em', children=gen_inlines(c, depth + 1, allow_link, False, 1 + t.below(3), allow_html))
